@@ -369,8 +369,12 @@ def run_check(spec, pid, tier, seed, replay_sig=None):
     for sig, ev in sorted(known_seen.items()):
         print(f"KNOWN-FINDING: property={pid} {findings[sig]} [sig={sig}]", flush=True)
     rc = 0
+    rdir = os.path.join(VERIF, "replay", pid)
+    if os.path.isdir(rdir):
+        for fn in os.listdir(rdir):
+            if fn.startswith(f"{tier}-seed{seed}-"):
+                os.remove(os.path.join(rdir, fn))
     if unknown:
-        rdir = os.path.join(VERIF, "replay", pid)
         os.makedirs(rdir, exist_ok=True)
         seen = set()
         n = 0
